@@ -7,6 +7,7 @@ import Gbo.Props.C02
 import Gbo.Props.C05
 import Gbo.Props.C06
 import Gbo.Props.C07
+import Gbo.Props.C09
 import Gbo.Props.C12
 import Gbo.Props.C13
 import Gbo.Props.C14
